@@ -128,7 +128,7 @@ class Client(base_client.BaseClient):
                                 run_async=False)
             if self.current_transport == 'websocket':
                 self.ws.close()
-            if not abort:
+            if not abort and self.read_loop_task:
                 self.read_loop_task.join()
             self.state = 'disconnected'
             try:
